@@ -1283,7 +1283,8 @@ class HexAssembly(Assembly):
         ValueError
             If rotation is not divisible by pi / 3.
         """
-        if math.isclose(rad % (math.pi / 3), 0, abs_tol=1e-12):
+        remainder = rad % (math.pi / 3)
+        if min(remainder, math.pi / 3 - remainder) <= 1e-12:
             return super().rotate(rad)
 
         msg = (
